@@ -275,8 +275,9 @@ class Suite:
         self.env = cfg.get("env", {})
 
     def gen(self, shard, nshards):
+        # generous: generators that drive the real code are slow on a heavily loaded machine
         p = subprocess.run([self.drive, self.name, "gen", str(self.seed), self.tier, str(shard), str(nshards)],
-                           stdout=subprocess.PIPE, stderr=subprocess.PIPE, timeout=self.timeout, text=True,
+                           stdout=subprocess.PIPE, stderr=subprocess.PIPE, timeout=max(self.timeout * 3, 1200), text=True,
                            env=dict(os.environ, **self.env))
         if p.returncode != 0:
             raise RuntimeError("gen %s failed: %s" % (self.name, p.stderr[-400:]))
